@@ -26,7 +26,7 @@ CLAIMS = {
          "§6 C08", "Lean 4 proof (operator specifications) + differential correspondence against GMP naturals"),
  "C09": ("Lean theorem: a native declaration is accepted iff the first attached coin of that denom (absent = 0) carries exactly the declared amount; rejection is an ordinary error. "
          "Correspondence: the finite funds-shape matrix enumerated completely.", "§6 C09", "Lean 4 proof (decision logic) + exhaustive finite matrix"),
- "C10": ("Lean theorems: soundness and completeness of both branches of assert_max_spread in cross-multiplied integer form, correctness and success set of the decimals normalisation, guard only with max_spread. "
+ "C10": ("Lean theorems: soundness and completeness of both branches of assert_max_spread in cross-multiplied integer form, correctness and success set of the decimals normalisation, guard only with max_spread, monotonicity in the limit (accepted at ms ⇒ accepted at every larger ms, any belief price). "
          "Correspondence: all 20×20 decimal pairs × both branches with values solved around the limit; guard vs other failure compared by enum variant; world family swap: every accepted swap is judged against the bound on its reported amounts with the pair's own decimals, every guard rejection against the quote taken just before. World-level theorems (C10W): a successful swap — direct or through the cw20 hook — passed assert_max_spread on its reported amounts with the pair's own decimals in offer/ask order, hence satisfies the bound; a guard rejection comes only from that call on the would-be amounts.",
          "§6 C10", "Lean 4 proof + differential correspondence"),
  "C12": ("Lean theorems: closed integer form of compute_offer_amount, never above the documented closed form, below it by at most the stated rounding, commission formula. "
